@@ -3375,3 +3375,188 @@ func configSectionsRemovedOnlyByAttribute(c *Ctx, rule string) {
 	}
 	c.AtLeast(rule, "section removals", n, 5)
 }
+
+// unpushedIncludesHead (C05): "not yet pushed" is decided by `git log <local tips> --not --remotes[=<remote>]`.
+// The local tips are all branches and tags — and HEAD: commits made on a detached HEAD are on no branch, and
+// leaving HEAD out of the positive revisions lets prune delete the objects of commits that were never pushed.
+func unpushedIncludesHead(c *Ctx, rule string) {
+	p := c.P
+	fn := p.Fn("lfs", "scanUnpushed")
+	if fn == nil {
+		c.Missing(rule, "lfs.scanUnpushed", "not found")
+		return
+	}
+	n := 0
+	for _, ci := range CallsIn(fn, "git.Log") {
+		a := CallArgs(ci.Common())
+		vecs, ok := ArgVectors(a[len(a)-1])
+		if !ok || len(vecs) == 0 {
+			c.Undecided(rule, "scanUnpushed:argv", p.InstrPos(ci), "the argument vector could not be enumerated")
+			continue
+		}
+		n++
+		// some vector (the one used when HEAD exists) names HEAD before --not; all name --branches and --tags there
+		headSomewhere := false
+		good := true
+		for _, vec := range vecs {
+			pos := map[string]bool{}
+			for _, e := range vec {
+				s, isC := ConstString(e.V)
+				if !isC || e.Spread {
+					continue
+				}
+				if s == "--not" {
+					break
+				}
+				pos[s] = true
+			}
+			if !pos["--branches"] || !pos["--tags"] {
+				good = false
+			}
+			if pos["HEAD"] {
+				headSomewhere = true
+			}
+		}
+		c.Check(good && headSomewhere, rule, "scanUnpushed:local-tips-include-HEAD", p.InstrPos(ci), "the unpushed scan starts from branches, tags and HEAD",
+			"the scan for unpushed commits starts from branches and tags only: commits made on a detached HEAD are never found, and prune deletes the objects of commits that were never pushed")
+	}
+	c.AtLeast(rule, "git log invocations in scanUnpushed", n, 1)
+}
+
+// decodedEntriesNilChecked (C06): the batch response is decoded from whatever JSON the server sent; `null` where an
+// object or an action is expected decodes to a nil pointer. In (*tqClient).Batch every element taken out of a
+// decoded collection is dereferenced only behind a test that it is not nil, and the Objects slice handed to the
+// queue is rebuilt from elements that passed that test — the queue's own loops dereference its elements freely.
+func decodedEntriesNilChecked(c *Ctx, rule string) {
+	p := c.P
+	fn := p.Fn("tq", "(*tqClient).Batch")
+	if fn == nil {
+		c.Missing(rule, "(*tq.tqClient).Batch", "not found")
+		return
+	}
+	isElem := func(v ssa.Value) bool {
+		if _, isPtr := v.Type().Underlying().(*types.Pointer); !isPtr {
+			return false
+		}
+		switch x := v.(type) {
+		case *ssa.UnOp:
+			_, ok := x.X.(*ssa.IndexAddr)
+			return ok && x.Op == token.MUL
+		case *ssa.Extract:
+			_, ok := x.Tuple.(*ssa.Next)
+			return ok
+		}
+		return false
+	}
+	nonNil := func(elem ssa.Value) []Edge {
+		return PassEdges(fn, func(cond ssa.Value) (bool, bool) {
+			op, x, y, ok := BinCmp(cond)
+			if !ok || (op != token.EQL && op != token.NEQ) {
+				return false, false
+			}
+			if IsNilConst(x) {
+				x, y = y, x
+			}
+			if !IsNilConst(y) || x != elem {
+				return false, false
+			}
+			return op == token.NEQ, true
+		})
+	}
+	n := 0
+	seen := map[ssa.Value]bool{}
+	for _, b := range fn.Blocks {
+		for _, in := range b.Instrs {
+			var base ssa.Value
+			switch x := in.(type) {
+			case *ssa.FieldAddr:
+				base = x.X
+			case *ssa.Field:
+				base = x.X
+			}
+			if base == nil || !isElem(base) {
+				continue
+			}
+			// only collections that come out of the response (elements of the request are the client's own)
+			fromResp := false
+			for _, cn := range rootCallees(base, 0) {
+				_ = cn
+			}
+			if t := base.Type().String(); strings.HasSuffix(t, "tq.Transfer") || strings.HasSuffix(t, "tq.Action") {
+				fromResp = !strings.Contains(describeRoot(base), "batchRequest")
+			}
+			if !fromResp || seen[base] {
+				continue
+			}
+			seen[base] = true
+			n++
+			pass := nonNil(base)
+			g, where := Guarded(fn.Blocks[0], in, pass, nil)
+			c.Check(g && nonVacuous(pass), rule, "batch-response:entry-nil-checked#"+itoa(n), p.InstrPos(in), "an entry of the decoded response is used only after a nil test",
+				"an entry of the decoded batch response is dereferenced without a nil test ("+where+"): a response containing `null` in place of an object or action crashes the client")
+		}
+	}
+	c.AtLeast(rule, "entries of the decoded batch response used in Batch", n, 2)
+	// the slice handed on holds only entries that passed the test
+	rebuilt := false
+	for _, b := range fn.Blocks {
+		for _, in := range b.Instrs {
+			st, ok := in.(*ssa.Store)
+			if !ok {
+				continue
+			}
+			fa, ok := st.Addr.(*ssa.FieldAddr)
+			if !ok {
+				continue
+			}
+			if tn, f := fieldAddrName(fa); tn != "tq.BatchResponse" || f != "Objects" {
+				continue
+			}
+			apps := appendsInto(st.Val)
+			okAll := len(apps) > 0
+			for _, ap := range apps {
+				els := variadicOrdered(ap.Call.Args[1])
+				if len(els) != 1 || els[0] == nil {
+					okAll = false
+					continue
+				}
+				pass := nonNil(els[0])
+				if g, _ := Guarded(fn.Blocks[0], ap, pass, nil); !g || !nonVacuous(pass) {
+					okAll = false
+				}
+			}
+			if okAll {
+				rebuilt = true
+			}
+		}
+	}
+	c.Check(rebuilt, rule, "batch-response:objects-without-nil-entries", p.Pos(fn.Pos()), "the Objects slice handed to the queue is rebuilt from entries that are not nil",
+		"Batch hands the decoded Objects slice to the transfer queue as it is: a `null` entry reaches loops that dereference every element, and the process panics")
+}
+
+// describeRoot says where a collection element comes from (the type whose field holds the collection).
+func describeRoot(v ssa.Value) string {
+	for i := 0; i < 8 && v != nil; i++ {
+		switch x := v.(type) {
+		case *ssa.UnOp:
+			v = x.X
+		case *ssa.IndexAddr:
+			v = x.X
+		case *ssa.Extract:
+			v = x.Tuple
+		case *ssa.Next:
+			v = x.Iter
+		case *ssa.Range:
+			v = x.X
+		case *ssa.FieldAddr:
+			tn, f := fieldAddrName(x)
+			if strings.HasSuffix(tn, "batchRequest") || strings.HasSuffix(tn, "BatchResponse") {
+				return tn + "." + f
+			}
+			v = x.X
+		default:
+			return v.String()
+		}
+	}
+	return ""
+}
